@@ -1134,10 +1134,8 @@ impl SubRule {
                             // `pos` is past the end of the word, the segment went to the end of the last syllable
                             let last_syll = res_word.syllables.len() - 1;
                             let seg_pos = SegPos::new(last_syll, res_word.syllables[last_syll].segments.len() - 1);
-                            let lc = res_word.apply_seg_mods(&self.alphas, m, seg_pos, state.position)?;
-                            if lc > 0 {
-                                pos.seg_index += lc.unsigned_abs() as usize;
-                            }
+                            // (the cursor stays past the end, whatever the change in length)
+                            res_word.apply_seg_mods(&self.alphas, m, seg_pos, state.position)?;
                         } 
                     };
                     pos.increment(&res_word);
@@ -1854,10 +1852,8 @@ impl SubRule {
                                 // `pos` is past the end of the word, the segment went to the end of the last syllable
                                 let last_syll = res_word.syllables.len() - 1;
                                 let seg_pos = SegPos::new(last_syll, res_word.syllables[last_syll].segments.len() - 1);
-                                let lc = res_word.apply_seg_mods(&self.alphas, m, seg_pos, z.position)?;
-                                if lc > 0 {
-                                    pos.seg_index += lc.unsigned_abs() as usize;
-                                }
+                                // (the cursor stays past the end, whatever the change in length)
+                                res_word.apply_seg_mods(&self.alphas, m, seg_pos, z.position)?;
                             } 
                         };
                         pos.increment(&res_word);
